@@ -174,3 +174,46 @@ func VP_C08_Reset() {
 	zzvp.Assert(vpFsck() == "", "the repository is connected after reset")
 	zzvp.Done()
 }
+
+// VP_C08_Twins: the target snapshot holds two directories with identical content (one tree id for both): --mixed and
+// --hard re-install both directories under their own names.
+func VP_C08_Twins() {
+	vpInitRepo()
+	w, g := zzvp.Root(), vpG()
+	maxc := zzvp.Param("complen", 1)
+	d1, d2, leaf := vpComp("ta", maxc), vpComp("tb", maxc), vpComp("tl", maxc)
+	zzvp.Assume(d1 != d2)
+	if zzvp.Choose(2) == 1 {
+		// nested twins: p/d1/leaf and p/d2/leaf
+		p := vpComp("tp", 1)
+		d1, d2 = p+"/"+d1, p+"/"+d2
+	}
+	f1, f2 := d1+"/"+leaf, d2+"/"+leaf
+	zzvp.WriteFile(w+"/"+f1, []byte("T"))
+	zzvp.WriteFile(w+"/"+f2, []byte("T"))
+	vpOK(zzvp.Run("add", "."))
+	vpOK(zzvp.Run("commit", "-m", "twins"))
+	first, _, _ := vpBranch("main")
+	zzvp.WriteFile(w+"/"+f1, []byte("U"))
+	vpOK(zzvp.Run("add", f1))
+	vpOK(zzvp.Run("commit", "-m", "second"))
+	if zzvp.Choose(2) == 1 {
+		zzvp.RemoveAll(w + "/" + d2)
+	}
+	mode := zzvp.Choose(2)
+	r := zzvp.Run("reset", []string{"--mixed", "--hard"}[mode], "HEAD@{1}")
+	zzvp.Assert(r.Exit == 0, "a valid reflog position is accepted")
+	tip, _, _ := vpBranch("main")
+	zzvp.Assert(string(tip) == string(first), "the current branch moves to exactly the commit reflog displays at position n")
+	_, cdata, _ := vpReadObject(g, tip)
+	target, tok := vpDecodeTree(g, vpParseCommit(cdata).tree, "", 0)
+	idx, iok := vpReadIndex()
+	zzvp.Assert(tok && iok && len(target) == 2 && vpSamePairList(idx, target), "the staging area equals the target snapshot, both twin directories included")
+	if mode == 1 {
+		for _, e := range target {
+			c, ok := zzvp.ReadFile(w + "/" + e.path)
+			zzvp.Assert(ok && string(c) == "T", "--hard makes every file of the snapshot exist with the committed bytes, recreating missing directories")
+		}
+	}
+	zzvp.Done()
+}
